@@ -204,7 +204,7 @@ def real(argv, cwd=None, optimize=False, registry_fixture=False, extra_path=(), 
     try:
         p = subprocess.run(cmd, cwd=cwd, env=repoenv.child_env(extra_path, registry_fixture),
                            stdin=subprocess.DEVNULL,
-                           stdout=stdout if stdout is not None else subprocess.PIPE,
+                           stdout=None if stdout is False else (stdout if stdout is not None else subprocess.PIPE),
                            stderr=subprocess.PIPE, timeout=timeout, preexec_fn=preexec_fn)
     except subprocess.TimeoutExpired as e:
         return CliResult('timeout', e.stdout or b'', e.stderr or b'')
